@@ -57,6 +57,14 @@ def _case(draw: Any, args: dict) -> dict:
     for _ in range(draw(st.integers(2, 4))):
         decls.append(gt.func(namer.fresh("fn"), [gt.param(namer.fresh("q"), "pos", t(), None) for _ in range(draw(st.integers(1, 2)))], ret=t(), doc="A function."))
     decls.append(gt.enum("Shade", ["DARK", "LIGHT"]))
+    # a function without any parameter and a function over a type variable (module-level type variables are analyser state)
+    if draw(st.booleans()):
+        noparam = gt.func("version_info", [], ret=["str"], doc="No parameters.")
+        if draw(st.booleans()):
+            decls.insert(0, noparam)  # the first declaration of the module: analysed right after the previous module
+        else:
+            decls.append(noparam)
+        decls.append(gt.func("identity_fn", [gt.param("x", "pos", ["tvar", "TF"], None)], ret=["tvar", "TF"]))
     if draw(st.booleans()):
         decls.append(gt.klass("GenericBox", [gt.func("get", [gt.param("d", "pos", ["tvar", "TG"], None)], ret=["tvar", "TG"], kind="method")], tparams=[{"name": "TG", "variance": "", "bound": None, "values": []}]))
         decls.append(gt.klass("PlainWithTypeVarMethod", [gt.func("ident", [gt.param("v", "pos", ["tvar", "TG"], None)], ret=["tvar", "TG"], kind="method")]))
@@ -85,8 +93,11 @@ def _case(draw: Any, args: dict) -> dict:
             ds.append(gt.klass(namer.fresh("UsesPriv"), [], bases=[["cls", f"{'.'.join(path)}:_PrivBase"]]))
         if variant:
             ds.append(gt.func(f"extra_{variant}", [], ret=["str"], doc="changed"))
+        if generic_tail:
+            ds.append(gt.func(namer.fresh("generic_tail"), [gt.param("x", "pos", ["tvar", "TU"], None)], ret=["tvar", "TU"]))
         return gt.module(path, ds, doc=f"Unrelated module {variant}.")
 
+    generic_tail = draw(st.booleans())  # the unrelated modules end with a function over a type variable
     u_path = [pk, "b", draw(st.sampled_from(["things", "target", "helper"]))]
     u = unrelated(u_path, collide, 0)
     base_mods = [helper, target, alpha(False)]
@@ -97,13 +108,14 @@ def _case(draw: Any, args: dict) -> dict:
     variants.append({"name": "second U added", "modules": [*base_mods, u, unrelated([pk, "c", "things"], collide, 2)], "inits": inits})
     variants.append({"name": "U placed before the target's package", "modules": [{**copy.deepcopy(u), "path": [pk, "_0first", u_path[-1]]}, *base_mods], "inits": inits})
     variants.append({"name": "U placed after everything", "modules": [*base_mods, {**copy.deepcopy(u), "path": [pk, "zz_last", u_path[-1]]}], "inits": inits})
+    variants.append({"name": "U placed right before the target (same package)", "modules": [helper, {**copy.deepcopy(u), "path": [pk, "a", "s_unrelated"]}, target, alpha(False)], "inits": inits})
     variants.append({"name": "sibling module re-exported by the same __init__ changed inside", "modules": [helper, target, alpha(True), u], "inits": inits})
     perm = draw(st.permutations(range(len(decls))))
     variants.append({"name": "target declarations permuted", "modules": [helper, {**target, "decls": [decls[i] for i in perm]}, alpha(False), u], "inits": inits, "permuted": True})
     # renamed module with class refs inside must be re-pointed
     for v in variants:
         for m in v["modules"]:
-            if m["path"][-1] == "renamed_mod" or m["path"][1] in {"_0first", "zz_last"}:
+            if m["path"][-1] in {"renamed_mod", "s_unrelated"} or m["path"][1] in {"_0first", "zz_last"}:
                 old = ".".join(u_path)
                 new = ".".join(m["path"])
                 for d in m["decls"]:
